@@ -460,6 +460,13 @@ impl MqttState {
 
         self.inflight -= 1;
 
+        // The packet id may have been given to another publish between pubrec and pubcomp.
+        // A publish waiting for this id then keeps waiting for that holder's ack instead of
+        // evicting it from the unacked table
+        if self.outgoing_pub[pubcomp.pkid as usize].is_some() {
+            return Ok(None);
+        }
+
         // Only a solicited pubcomp frees the packet id for a publish waiting on it. The
         // released publish is in flight from now on, like in the puback path
         let outgoing = self.check_collision(pubcomp.pkid).map(|publish| {
